@@ -33,9 +33,12 @@ def family_case(ctx_seed, fam):
     wl = proofwl.weighted_logics()
     logic = wl[fam % len(wl)]
     prems, conc = proofwl.gen_case(rng, logic)
+    if refsem.get(logic).modal and rng.random() < 0.12:
+        # premise order and multiplicity matter most where several modal premises feed one world
+        prems, conc = proofwl.modal_interplay_template(rng)
     return logic, prems, conc
 
-def permute(rng, prems, k=None):
+def permute(rng, prems, k=None, dup=None):
     """k-th premise arrangement of a run: original, reversed, rotated, then shuffles with a
     duplicated premise (every run covers the first ones, so order effects do not depend on luck)."""
     prems = list(prems)
@@ -45,9 +48,13 @@ def permute(rng, prems, k=None):
         return prems[::-1]
     if k == 2:
         return prems[1:] + prems[:1]
-    if rng.random() < 0.5:
-        prems.insert(rng.randrange(len(prems) + 1), rng.choice(prems))   # duplicate a premise
-    rng.shuffle(prems)
+    # duplicated premises: one of them (which one rotates with the salt), or every one
+    if dup is not None and rng.random() < 0.6:
+        prems.insert(rng.randrange(len(prems) + 1), prems[dup % len(prems)])
+    else:
+        prems = prems + prems
+    if rng.random() < 0.7:
+        rng.shuffle(prems)
     return prems
 
 def make_cfgs(ctx, logic, prems, conc):
@@ -58,7 +65,7 @@ def make_cfgs(ctx, logic, prems, conc):
         opts = dict(proofwl.ALL_OPT_COMBOS[(k + srng.randrange(4)) % 4])
         opts['is_build_models'] = srng.random() < 0.6
         opts['max_steps'] = GUARD_STEPS
-        cfgs.append(proofsim.Config(logic, permute(srng, prems, (k + ctx.salt) % 4), conc, opts,
+        cfgs.append(proofsim.Config(logic, permute(srng, prems, (k + ctx.salt) % 4, dup=ctx.salt + ctx.index // salts(ctx.tier)), conc, opts,
             order_seed=srng.choice((0, srng.getrandbits(32), srng.getrandbits(32))),
             cache=srng.choice(proofsim.CACHE_SIZES), drive=('build', 'step', 'stepiter')[k % 3]))
     return cfgs
